@@ -1,7 +1,7 @@
 """C10 -- AudioReader framing: fixed-size blocks, overlap and max_read are exact (DESIGN 4.10)"""
 import ast
 
-from ..facts import Ctx, norm_cmp, exc_name
+from ..facts import Ctx, norm_cmp, exc_name, formula, role_leaf, mul, fcall
 from ..nullness import Nullness
 from ..symex import show, walk, term_name, flatten_product
 from .. import pat as P
@@ -15,11 +15,12 @@ def bind_hop(call, fn):
     return bind_call(call, fn, skip_self=True).get('hop_dur')
 
 
-def find_field_by_def(cx, mod, clsname, pattern):
-    """fields of a class whose (only) definitions match pattern -> list of names"""
+def find_field_by_def(cx, mod, clsname, pattern, expected=None):
+    """fields of a class whose (only) definitions match pattern (or are equal, as formulas, to expected(def)) -> list of names"""
+    from ..termeval import equivalent
     out = []
     for f, defs in cx.field_defs(mod, clsname).items():
-        if defs and all(pattern(d['value']) for d in defs):
+        if defs and all(pattern(d['value']) or (expected is not None and d['value'][0] in ('call', 'bin') and equivalent(d['value'], expected(d['value'])) is True) for d in defs):
             out.append(f)
     return out
 
@@ -60,7 +61,8 @@ def check(repo, rep):
 
     # ---------------------------------------------------------------- R2 fixed-size reader
     W = lambda n: cx.where(mod, n)
-    BS = find_field_by_def(cx, mod, '_FixedSizeAudioReader', P.call('int', P.prod(P.param('block_dur'), P.role('sampling_rate'))))
+    BS = find_field_by_def(cx, mod, '_FixedSizeAudioReader', P.call('int', P.prod(P.param('block_dur'), P.role('sampling_rate'))),
+                           lambda v: fcall('int', mul(('p', 'block_dur'), role_leaf(v, 'sampling_rate', ('attr', ('self',), 'sr')))))
     defs = cx.field_defs(mod, '_FixedSizeAudioReader')
     cands = [f for f, ds in defs.items() if any(any(t == ('p', 'block_dur') for t in walk(d['value'])) for d in ds)]
     init = cx.fn(mod, '_FixedSizeAudioReader.__init__')
@@ -111,7 +113,8 @@ def check(repo, rep):
                     rep.ob('block_dur property = block_size / sampling_rate (the effective window)', ok, cx.where(r[0], l.node), '%s.block_dur' % cname, 'block_dur returns %s' % show(l.value))
 
     # ---------------------------------------------------------------- R3/R4 overlap reader
-    HS = find_field_by_def(cx, mod, '_OverlapAudioReader', P.call('int', P.prod(P.param('hop_dur'), P.role('sampling_rate'))))
+    HS = find_field_by_def(cx, mod, '_OverlapAudioReader', P.call('int', P.prod(P.param('hop_dur'), P.role('sampling_rate'))),
+                           lambda v: fcall('int', mul(('p', 'hop_dur'), role_leaf(v, 'sampling_rate', ('attr', ('self',), 'sr')))))
     odefs = cx.field_defs(mod, '_OverlapAudioReader')
     hcands = [f for f, ds in odefs.items() if any(any(t == ('p', 'hop_dur') for t in walk(d['value'])) for d in ds)]
     if not hcands:
@@ -320,7 +323,8 @@ def check(repo, rep):
 
     # ---------------------------------------------------------------- R6 limiter
     ldefs = cx.field_defs(mod, '_Limiter')
-    MS = [f for f, ds in ldefs.items() if all(P.call('round', P.prod(P.param('max_read'), P.role('sampling_rate')))(d['value']) for d in ds)]
+    from ..termeval import equivalent as _eqv
+    MS = [f for f, ds in ldefs.items() if ds and all(P.call('round', P.prod(P.param('max_read'), P.role('sampling_rate')))(d['value']) or (d['value'][0] in ('call', 'bin') and _eqv(d['value'], fcall('round', mul(('p', 'max_read'), role_leaf(d['value'], 'sampling_rate', ('attr', ('self',), 'sr'))))) is True) for d in ds)]
     msc = [f for f, ds in ldefs.items() if any(any(t == ('p', 'max_read') for t in walk(d['value'])) and d['value'] != ('p', 'max_read') for d in ds)]
     if not msc:
         rep.unknown('_Limiter: no sample budget derived from max_read found')
